@@ -496,7 +496,10 @@ class TIMachine(FormatMachine):
                 self.fs.arm("F6.eio_at_offset", target, offset=fault["offset"] % max(len(data), 1))
         mark = len(self.fs.trace)
         try:
-            if value:
+            if value and op.get("also_root"):
+                # both given: the caller's value is what counts (the file is not even looked at)
+                s.obj.checksums.add(rel, ctype, value, root)
+            elif value:
                 s.obj.checksums.add(rel, ctype, value)
             else:
                 s.obj.checksums.add(rel, ctype, root_dir=root)
@@ -575,6 +578,7 @@ class TIMachine(FormatMachine):
     # ---- dump with main_variant ---------------------------------------------------------------------
     def do_dump(self, s, target, op):
         mv = op.get("main_variant")
+        target = self.arg(target)
         if mv is not None:
             s.obj.dump(target, main_variant=mv)
         else:
